@@ -1,3 +1,5 @@
+import Got.Model.MiniGo
+import Got.Generated.AstLoom
 import Got.Drv.Common
 import Got.Model.Cache
 import Got.Model.Sharding
@@ -854,7 +856,14 @@ def monitorLine (por : Bool) (line : String) : String :=
       match n.toInt? with
       | some n =>
         let want := match convertPowerOfTwo n with | some r => s!"r {r}" | none => "diverge"
-        if impl = want then "ok" else s!"reject model: {want}"
+        -- the MiniGo term regenerated from the source for this run, interpreted (theorem
+        -- C04_shard_count_translated_source: equal to the model for n ≤ 2^62); fuel 400 covers the ≤ 64 iterations
+        let ast := match Got.Generated.AstLoom.convertPowerOfTwo.run (fun _ _ => false) 400 [n] with
+          | some (.ret r _) => s!"r {r}"
+          | _ => "diverge"
+        if impl ≠ want then s!"reject model: {want}"
+        else if n ≤ 4611686018427387904 && impl ≠ ast then s!"reject translated source (MiniGo interpreter): {ast}"
+        else "ok"
       | none => "reject unparsable cpo2 line"
     | "cfg" :: _ =>
       -- a spinning goroutine of an earlier scenario froze the fake clock: nothing was observed for this scenario
